@@ -38,6 +38,8 @@ type simT struct {
 
 	origins sync.Map // label pointer (uintptr) -> origin string
 
+	passthrough atomic.Bool // read-only sweeps: yields are no-ops, nothing parked is released
+
 	// schedule source
 	rng        *rand.Rand
 	choices    []int
@@ -128,7 +130,7 @@ func (s *simT) registerOrigin(p unsafe.Pointer, origin string) {
 
 // yield parks the calling goroutine until the scheduler releases it.
 func (s *simT) yield(label string) {
-	if runtime.VerifGoID() == s.schedGID {
+	if runtime.VerifGoID() == s.schedGID || s.passthrough.Load() {
 		return // the scheduler itself never parks
 	}
 	p := &parkedG{label: label, origin: s.origin(), ch: make(chan struct{})}
@@ -405,6 +407,9 @@ func (s *simT) run(done func() bool, drain bool) (wedged bool) {
 		sn := s.waitQuiescent()
 		s.mu.Lock()
 		n := len(s.parked)
+		if s.passthrough.Load() {
+			n = 0 // parked goroutines stay parked during a read-only sweep
+		}
 		if n == 0 {
 			s.mu.Unlock()
 			finished := done()
